@@ -5,7 +5,7 @@ ENGINES = [
     {"name": "explorer", "path": "harness/explorer.py", "kind_free_text": "stateless DFS explicit-state model checker over the real engine on a simulated broker (replay + fingerprint dedup + deviation bound)",
      "serves_properties": ["C02", "C03", "C04", "C05", "C10", "C06", "C08", "C09", "C11"]},
     {"name": "enumerator", "path": "checks/common.py", "kind_free_text": "exhaustive small-scope enumeration of inputs/programs from a stated finite alphabet, each evaluated on the real code and on a reference model under /verif/ref",
-     "serves_properties": ["C01", "C07", "C08", "C12", "C14"]},
+     "serves_properties": ["C01", "C07", "C08", "C12", "C14", "C16", "C17"]},
 ]
 CHECKS = {
     "C03": {
@@ -91,6 +91,22 @@ CHECKS["C10"] = {
             "two-map reference, stores compared before/after each error answer and with the reference after each success. Quick: first 60 distinct states per front end; thorough: to the fixed point.",
     "note": "Trusted base: the reference map in checks/c10.py, Quart/Flask test clients in place of HTTP, simulated broker for StartExecution. " + SIM,
     "technique": "explicit-state model checking (BFS over reachable store states with a reference-model oracle)",
+}
+CHECKS["C16"] = {
+    "engine": "enumerator",
+    "text": "Exhaustive window enumeration: for each limit L every size L-2..L+2 (plus tiny and 2L) at every enforcement point (API input for StartExecution and StartSyncExecution, callback output, "
+            "Pass / Map / Parallel output with Next and End, task reply with Next and End, definition in Create and Update, names in Create and StartExecution) through the real API and engine, and a looping "
+            "machine against the real 25000-event history limit; accepted iff size <= L with the documented error otherwise.",
+    "note": ENUM + " " + SIM + " Sizes are measured on bare JSON strings so that every serializer agrees on the text length.",
+    "technique": "exhaustive boundary-window enumeration against the documented quota table (bounded model checking, explicit enumeration)",
+}
+CHECKS["C17"] = {
+    "engine": "enumerator",
+    "text": "Exhaustive enumeration: create_arn/parse_arn over all part combinations of small pools; every string up to the tier's length over letters, digits, ARN separators and every rejected character through "
+            "valid_name, each accepted name checked for round-tripping state-machine / execution ARNs (incl. the engine's split-at-last-colon derivation); machines and executions named from the accepted set run "
+            "through the real API and engine (STANDARD and EXPRESS) with every derived identifier compared; names that bypass the validator (child launch, raw event).",
+    "note": ENUM + " " + SIM,
+    "technique": "exhaustive small-scope enumeration of names/ARN parts with round-trip and differential oracles",
 }
 NA = {}
 NOTES = "All checks run the real code of /repo's working tree (imported by path) over /verif/sim; see DESIGN.md."
